@@ -133,3 +133,64 @@ theorem SW_direct (es : List SWEv) (s : SWState) :
     · exact Or.inr (List.mem_cons_of_mem _ h)
 
 end DV
+
+namespace DV
+
+theorem getD_set_self (l : List Nat) (i v : Nat) (h : i < l.length) : (l.set i v).getD i 0 = v := by
+  rw [List.getD_eq_getElem?_getD, List.getElem?_set_self h]; rfl
+
+theorem getD_set_ne (l : List Nat) (i j v : Nat) (h : i ≠ j) : (l.set i v).getD j 0 = l.getD j 0 := by
+  rw [List.getD_eq_getElem?_getD, List.getD_eq_getElem?_getD, List.getElem?_set_ne h]
+
+/-- with answers routed by connection, each connection is credited exactly the answers that
+    arrived on it after its handshake - whatever happens on the other connections -/
+theorem share_byConn (es : List ShareEv) (s : ShareState) (k : Nat) (hk : k < s.acks.length) :
+    (s.run true es).acks.getD k 0 = s.acks.getD k 0 + answersOn k es ∧ k < (s.run true es).acks.length := by
+  induction es generalizing s with
+  | nil => simp [ShareState.run, answersOn, hk]
+  | cons e es ih =>
+    have hrun : s.run true (e :: es) = (s.step true e).run true es := rfl
+    rw [hrun]
+    cases e with
+    | handshake =>
+      have hk' : k < (s.step true .handshake).acks.length := by
+        simp only [ShareState.step, List.length_append, List.length_cons, List.length_nil]; omega
+      obtain ⟨h1, h2⟩ := ih (s.step true .handshake) hk'
+      refine ⟨?_, h2⟩
+      rw [h1]
+      have : (s.step true .handshake).acks.getD k 0 = s.acks.getD k 0 := by
+        simp only [ShareState.step]
+        rw [List.getD_eq_getElem?_getD, List.getElem?_append_left hk, ← List.getD_eq_getElem?_getD]
+      rw [this]
+      simp [answersOn]
+    | answer j =>
+      by_cases hj : j < s.acks.length
+      · have hlen : (s.step true (.answer j)).acks.length = s.acks.length := by
+          simp [ShareState.step, hj]
+        obtain ⟨h1, h2⟩ := ih (s.step true (.answer j)) (by rw [hlen]; exact hk)
+        refine ⟨?_, h2⟩
+        rw [h1]
+        by_cases hjk : j = k
+        · subst hjk
+          have : (s.step true (.answer j)).acks.getD j 0 = s.acks.getD j 0 + 1 := by
+            simp only [ShareState.step, hj, if_true]
+            exact getD_set_self _ _ _ hj
+          rw [this]
+          simp [answersOn]; omega
+        · have : (s.step true (.answer j)).acks.getD k 0 = s.acks.getD k 0 := by
+            simp only [ShareState.step, hj, if_true]
+            exact getD_set_ne _ _ _ _ hjk
+          rw [this]
+          have hne : (ShareEv.answer j == ShareEv.answer k) = false := by
+            simp [hjk]
+          simp [answersOn, hne]
+      · have hst : s.step true (.answer j) = s := by simp [ShareState.step, hj]
+        rw [hst]
+        obtain ⟨h1, h2⟩ := ih s hk
+        refine ⟨?_, h2⟩
+        rw [h1]
+        have hjk : j ≠ k := by omega
+        have hne : (ShareEv.answer j == ShareEv.answer k) = false := by simp [hjk]
+        simp [answersOn, hne]
+
+end DV
